@@ -36,6 +36,27 @@ func mappingPairsEqual(m data.Mapping, kvs []KV) bool {
 			return false
 		}
 	}
+	// lookup by key exposes the encoded value too (the first one when a key repeats), whatever
+	// the wire order of the pairs
+	seen := map[string]bool{}
+	for _, kv := range kvs {
+		if seen[string(kv.K)] || len(kv.K) > 255 {
+			continue
+		}
+		seen[string(kv.K)] = true
+		ks, err := data.ToI2PString(string(kv.K))
+		if err != nil {
+			continue
+		}
+		got := vals.Get(ks)
+		if got == nil {
+			return false
+		}
+		gv, err := got.Data()
+		if (err != nil && len(kv.V) > 0) || gv != string(kv.V) {
+			return false
+		}
+	}
 	return true
 }
 
